@@ -105,23 +105,27 @@ Fixpoint e_brows (above lefts : list Z) (rows : list (list Z)) : list (bool * Z)
   | _, _ => []
   end.
 
+Fixpoint bleft (lefts : list Z) (rows : list (list Z)) : list Z :=
+  match lefts, rows with
+  | l :: ltl, row :: rtl => last row l :: bleft ltl rtl
+  | _, _ => []
+  end.
+
 Lemma rt_brows : forall lefts rows above d rest, length rows = length lefts ->
   Forall (fun row => length row = length above /\ Forall (fun m => 0 <= m < 10) row) rows ->
   sync d (e_brows above lefts rows ++ rest) ->
-  exists d' ab ls, bmode_rows above lefts d = (rows, ab, ls, d') /\ sync d' rest /\
-    ab = last rows above /\ length ls = length lefts.
+  exists d', bmode_rows above lefts d = (rows, last rows above, bleft lefts rows, d') /\ sync d' rest.
 Proof.
   induction lefts as [|l ltl IH]; intros rows above d rest Hl Hr Hs; destruct rows as [|row rtl]; try discriminate Hl;
-    cbn [bmode_rows e_brows] in *.
-  - exists d, above, []. repeat split; try reflexivity. exact Hs.
+    cbn [bmode_rows e_brows bleft] in *.
+  - exists d. split; [reflexivity|exact Hs].
   - rewrite <- app_assoc in Hs. destruct (Forall_inv Hr) as [Hlen Hmodes].
     destruct (rt_brow above row l d _ Hlen Hmodes Hs) as (d1 & E1 & S1). rewrite E1.
     assert (Hr2 : Forall (fun r => length r = length row /\ Forall (fun m => 0 <= m < 10) r) rtl).
     { eapply Forall_impl; [|exact (Forall_inv_tail Hr)]. cbv beta. intros r [H1 H2]. split; [lia|exact H2]. }
-    destruct (IH rtl row d1 rest ltac:(cbn [length] in Hl; lia) Hr2 S1) as (d2 & ab & ls & E2 & S2 & Hab & Hls).
-    rewrite E2. exists d2, ab, (last row l :: ls). repeat split; try assumption.
-    + rewrite Hab. destruct rtl as [|r1 rt]; [reflexivity|]. change (last (row :: r1 :: rt) above) with (last (r1 :: rt) above). apply last_default.
-    + cbn [length]. lia.
+    destruct (IH rtl row d1 rest ltac:(cbn [length] in Hl; lia) Hr2 S1) as (d2 & E2 & S2).
+    rewrite E2. exists d2. split; [|exact S2]. f_equal. f_equal. f_equal.
+    destruct rtl as [|r1 rt]; [reflexivity|]. change (last (row :: r1 :: rt) above) with (last (r1 :: rt) above). apply last_default.
 Qed.
 
 (** * the macroblock header *)
@@ -141,15 +145,18 @@ Definition wf_mb_hdr (h : frame_hdr) (above_b left_b : list Z) (mh : mb_hdr) : P
      Forall (fun row => length row = 4%nat /\ Forall (fun m => 0 <= m < 10) row) (mh_bmodes mh)
    else 0 <= mh_ymode mh < 4 /\ mh_bmodes mh = []).
 
+(** mode contexts handed to the macroblocks below and to the right *)
+Definition bctx_after (mh : mb_hdr) (above_b left_b : list Z) : list Z * list Z :=
+  if mh_is4 mh then (last (mh_bmodes mh) above_b, bleft left_b (mh_bmodes mh))
+  else (rep4 (bmode_of_ymode (mh_ymode mh)), rep4 (bmode_of_ymode (mh_ymode mh))).
+
 Theorem parse_mb_hdr_rt h above_b left_b mh d rest : wf_mb_hdr h above_b left_b mh ->
   sync d (e_mb_hdr h above_b left_b mh ++ rest) ->
-  exists d' ab ls, parse_mb_hdr h above_b left_b d = (mh, ab, ls, d') /\ sync d' rest /\
-    length ab = 4%nat /\ length ls = 4%nat /\
-    (mh_is4 mh = true -> ab = last (mh_bmodes mh) above_b) /\
-    (mh_is4 mh = false -> ab = rep4 (bmode_of_ymode (mh_ymode mh)) /\ ls = rep4 (bmode_of_ymode (mh_ymode mh))).
+  exists d', parse_mb_hdr h above_b left_b d =
+               (mh, fst (bctx_after mh above_b left_b), snd (bctx_after mh above_b left_b), d') /\ sync d' rest.
 Proof.
   intros (Hseg & Hseg0 & Hsk0 & Huv & La & Ll & Hmode) Hs. unfold e_mb_hdr in Hs. rewrite <- !app_assoc in Hs.
-  unfold parse_mb_hdr.
+  unfold parse_mb_hdr, bctx_after.
   destruct mh as [seg skip is4 ym bm uv]. cbn [mh_seg mh_skip mh_is4 mh_ymode mh_bmodes mh_uvmode] in *.
   assert (H1 : exists d1, (if sg_update_map (fh_seg h) then read_tree segment_tree (sg_probs (fh_seg h)) d else (0, d)) = (seg, d1) /\
             sync d1 ((if fh_skip_enabled h then [(skip, fh_skip_prob h)] else []) ++
@@ -172,21 +179,15 @@ Proof.
     rewrite E3.
     assert (Hrows2 : Forall (fun row => length row = length above_b /\ Forall (fun m => 0 <= m < 10) row) bm).
     { eapply Forall_impl; [|exact Hrows]. cbv beta. intros r [H1 H2]. split; [lia|exact H2]. }
-    destruct (rt_brows left_b bm above_b d3 _ ltac:(lia) Hrows2 S3) as (d4 & ab & ls & E4 & S4 & Hab & Hls).
+    destruct (rt_brows left_b bm above_b d3 _ ltac:(lia) Hrows2 S3) as (d4 & E4 & S4).
     rewrite E4.
     destruct (rt_etree Z.eqb zeqb_sound uv_mode_tree kf_uv_mode_probs uv d4 rest (uv_has_path uv Huv) S4) as (d5 & E5 & S5).
-    rewrite E5. exists d5, ab, ls. split; [reflexivity|]. split; [exact S5|].
-    split.
-    { rewrite Hab. destruct bm as [|r0 bt]; [discriminate Lb|].
-      pose proof (last_in bt r0 above_b) as Hin.
-      rewrite Forall_forall in Hrows. exact (proj1 (Hrows _ Hin)). }
-    split; [lia|]. split; [intros _; exact Hab|intros H; discriminate H].
+    rewrite E5. exists d5. split; [reflexivity|exact S5].
   - destruct Hmode as (Hym & Hbm). subst bm.
     destruct (rt_etree oeqb oeqb_sound kf_ymode_tree kf_ymode_probs (Some ym) d2 _ (ymode_has_path ym Hym) S2) as (d3 & E3 & S3).
     rewrite E3. cbn [app] in S3.
     destruct (rt_etree Z.eqb zeqb_sound uv_mode_tree kf_uv_mode_probs uv d3 rest (uv_has_path uv Huv) S3) as (d5 & E5 & S5).
-    rewrite E5. eexists d5, _, _. split; [reflexivity|]. split; [exact S5|].
-    repeat split; try reflexivity. intros H; discriminate H.
+    rewrite E5. exists d5. split; [reflexivity|exact S5].
 Qed.
 
 (** * residual data of a macroblock (13): blocks in raster order with the left / above
@@ -243,25 +244,33 @@ Fixpoint e_blk_rows (tp : list (list (list Z))) (first : Z) (above lefts : list 
   | _, _ => []
   end.
 
+(** contexts after a plane: above = flags of the last block row, left = flag of the last block of each row *)
+Fixpoint ctx_above (above : list Z) (rows : list (list (list Z))) : list Z :=
+  match rows with [] => above | row :: tl => ctx_above (map bflag row) tl end.
+Fixpoint ctx_left (lefts : list Z) (rows : list (list (list Z))) : list Z :=
+  match lefts, rows with
+  | l :: ltl, row :: rtl => last (map bflag row) l :: ctx_left ltl rtl
+  | _, _ => []
+  end.
+
 Lemma rt_blk_rows tp first dqdc dqac : 0 <= first ->
   forall lefts rows above d rest, length rows = length lefts ->
   Forall (fun row => length row = length above /\ Forall (wf_levels first false) row) rows ->
   sync d (e_blk_rows tp first above lefts rows ++ rest) ->
-  exists d' ab ls, blk_rows (fun ctx => decode_block tp first ctx dqdc dqac) first above lefts d =
-    (map (deq first dqdc dqac) (concat rows), ab, ls, existsb bany (concat rows), d') /\ sync d' rest /\
-    length ab = length above /\ length ls = length lefts.
+  exists d', blk_rows (fun ctx => decode_block tp first ctx dqdc dqac) first above lefts d =
+    (map (deq first dqdc dqac) (concat rows), ctx_above above rows, ctx_left lefts rows,
+     existsb bany (concat rows), d') /\ sync d' rest.
 Proof.
   intros H0. induction lefts as [|l ltl IH]; intros rows above d rest Hl Hr Hs; destruct rows as [|row rtl]; try discriminate Hl;
-    cbn [blk_rows e_blk_rows concat map existsb] in *.
-  - exists d, above, []. repeat split; try reflexivity. exact Hs.
+    cbn [blk_rows e_blk_rows concat map existsb ctx_above ctx_left] in *.
+  - exists d. split; [reflexivity|exact Hs].
   - rewrite <- app_assoc in Hs. destruct (Forall_inv Hr) as [Hlen Hwf].
     destruct (rt_blk_row tp first dqdc dqac H0 above row l d _ Hlen Hwf Hs) as (d1 & E1 & S1). rewrite E1.
     assert (Hr2 : Forall (fun r => length r = length (map bflag row) /\ Forall (wf_levels first false) r) rtl).
     { eapply Forall_impl; [|exact (Forall_inv_tail Hr)]. cbv beta. intros r [H1 H2]. rewrite map_length. split; [lia|exact H2]. }
-    destruct (IH rtl (map bflag row) d1 rest ltac:(cbn [length] in Hl; lia) Hr2 S1) as (d2 & ab & ls & E2 & S2 & Hab & Hls).
-    rewrite E2. eexists d2, ab, _. split.
-    + rewrite map_app, existsb_app. reflexivity.
-    + split; [exact S2|]. split; [rewrite Hab, map_length; lia|cbn [length]; lia].
+    destruct (IH rtl (map bflag row) d1 rest ltac:(cbn [length] in Hl; lia) Hr2 S1) as (d2 & E2 & S2).
+    rewrite E2. exists d2. split; [|exact S2].
+    rewrite map_app, existsb_app. reflexivity.
 Qed.
 
 (** the residual record: Y2 (16x16 modes only), 16 luma, 4 + 4 chroma blocks *)
@@ -276,20 +285,28 @@ Definition e_residuals (probs : list (list (list (list Z)))) (is4 : bool) (above
 Definition wf_rows (first : Z) (n : nat) (rows : list (list (list Z))) : Prop :=
   length rows = n /\ Forall (fun row => length row = n /\ Forall (wf_levels first false) row) rows.
 
+Definition res_of (q : dqf) (is4 : bool) (y2 : list Z) (ys us vs : list (list (list Z))) : mb_res :=
+  mkRes (if is4 then None else Some (deq 0 (dq_y2dc q) (dq_y2ac q) y2))
+        (map (deq (if is4 then 0 else 1) (dq_y1dc q) (dq_y1ac q)) (concat ys))
+        (map (deq 0 (dq_uvdc q) (dq_uvac q)) (concat us))
+        (map (deq 0 (dq_uvdc q) (dq_uvac q)) (concat vs))
+        ((if is4 then false else bany y2) || existsb bany (concat ys) || existsb bany (concat us) || existsb bany (concat vs)).
+
+Definition nz_after (is4 : bool) (above left : nzctx) (y2 : list Z) (ys us vs : list (list (list Z))) : nzctx * nzctx :=
+  (mkNz (ctx_above (nz_y above) ys) (ctx_above (nz_u above) us) (ctx_above (nz_v above) vs)
+        (if is4 then nz_y2 above else bflag y2),
+   mkNz (ctx_left (nz_y left) ys) (ctx_left (nz_u left) us) (ctx_left (nz_v left) vs)
+        (if is4 then nz_y2 left else bflag y2)).
+
 Theorem parse_residuals_rt probs q (is4 : bool) above left y2 ys us vs d rest :
   length (nz_y above) = 4%nat -> length (nz_y left) = 4%nat ->
   length (nz_u above) = 2%nat -> length (nz_u left) = 2%nat ->
   length (nz_v above) = 2%nat -> length (nz_v left) = 2%nat ->
   wf_levels 0 false y2 -> wf_rows (if is4 then 0 else 1) 4 ys -> wf_rows 0 2 us -> wf_rows 0 2 vs ->
   sync d (e_residuals probs is4 above left y2 ys us vs ++ rest) ->
-  exists d' na nl, parse_residuals probs q is4 above left d =
-    (mkRes (if is4 then None else Some (deq 0 (dq_y2dc q) (dq_y2ac q) y2))
-           (map (deq (if is4 then 0 else 1) (dq_y1dc q) (dq_y1ac q)) (concat ys))
-           (map (deq 0 (dq_uvdc q) (dq_uvac q)) (concat us))
-           (map (deq 0 (dq_uvdc q) (dq_uvac q)) (concat vs))
-           ((if is4 then false else bany y2) || existsb bany (concat ys) || existsb bany (concat us) || existsb bany (concat vs)),
-     na, nl, d') /\ sync d' rest /\
-    nz_y2 na = (if is4 then nz_y2 above else bflag y2) /\ nz_y2 nl = (if is4 then nz_y2 left else bflag y2).
+  exists d', parse_residuals probs q is4 above left d =
+    (res_of q is4 y2 ys us vs, fst (nz_after is4 above left y2 ys us vs), snd (nz_after is4 above left y2 ys us vs), d')
+    /\ sync d' rest.
 Proof.
   intros La Ll Lua Lul Lva Lvl Hy2 (Lys & Hys) (Lus & Hus) (Lvs & Hvs) Hs.
   unfold e_residuals in Hs. cbv zeta in Hs. rewrite <- !app_assoc in Hs.
@@ -301,24 +318,24 @@ Proof.
   destruct is4.
   - cbn [app] in Hs.
     destruct (rt_blk_rows (nthZ probs 3 []) 0 (dq_y1dc q) (dq_y1ac q) ltac:(lia) (nz_y left) ys (nz_y above) d _
-                ltac:(lia) (Hrows 0 4%nat ys _ La Hys) Hs) as (d1 & ay & ly & E1 & S1 & _ & _).
+                ltac:(lia) (Hrows 0 4%nat ys _ La Hys) Hs) as (d1 & E1 & S1).
     rewrite E1.
     destruct (rt_blk_rows (nthZ probs 2 []) 0 (dq_uvdc q) (dq_uvac q) ltac:(lia) (nz_u left) us (nz_u above) d1 _
-                ltac:(lia) (Hrows 0 2%nat us _ Lua Hus) S1) as (d2 & au & lu & E2 & S2 & _ & _).
+                ltac:(lia) (Hrows 0 2%nat us _ Lua Hus) S1) as (d2 & E2 & S2).
     rewrite E2.
     destruct (rt_blk_rows (nthZ probs 2 []) 0 (dq_uvdc q) (dq_uvac q) ltac:(lia) (nz_v left) vs (nz_v above) d2 _
-                ltac:(lia) (Hrows 0 2%nat vs _ Lva Hvs) S2) as (d3 & av & lv & E3 & S3 & _ & _).
-    rewrite E3. eexists d3, _, _. split; [reflexivity|]. split; [exact S3|]. split; reflexivity.
+                ltac:(lia) (Hrows 0 2%nat vs _ Lva Hvs) S2) as (d3 & E3 & S3).
+    rewrite E3. exists d3. split; [reflexivity|exact S3].
   - destruct (decode_block_rt (nthZ probs 1 []) 0 (nz_y2 above + nz_y2 left) (dq_y2dc q) (dq_y2ac q) y2 d _ Hy2 ltac:(lia) Hs)
       as (d0 & E0 & S0). rewrite E0.
     destruct (flag_spec 0 y2) as [F1 F2]. rewrite F1, F2.
     destruct (rt_blk_rows (nthZ probs 0 []) 1 (dq_y1dc q) (dq_y1ac q) ltac:(lia) (nz_y left) ys (nz_y above) d0 _
-                ltac:(lia) (Hrows 1 4%nat ys _ La Hys) S0) as (d1 & ay & ly & E1 & S1 & _ & _).
+                ltac:(lia) (Hrows 1 4%nat ys _ La Hys) S0) as (d1 & E1 & S1).
     rewrite E1.
     destruct (rt_blk_rows (nthZ probs 2 []) 0 (dq_uvdc q) (dq_uvac q) ltac:(lia) (nz_u left) us (nz_u above) d1 _
-                ltac:(lia) (Hrows 0 2%nat us _ Lua Hus) S1) as (d2 & au & lu & E2 & S2 & _ & _).
+                ltac:(lia) (Hrows 0 2%nat us _ Lua Hus) S1) as (d2 & E2 & S2).
     rewrite E2.
     destruct (rt_blk_rows (nthZ probs 2 []) 0 (dq_uvdc q) (dq_uvac q) ltac:(lia) (nz_v left) vs (nz_v above) d2 _
-                ltac:(lia) (Hrows 0 2%nat vs _ Lva Hvs) S2) as (d3 & av & lv & E3 & S3 & _ & _).
-    rewrite E3. eexists d3, _, _. split; [reflexivity|]. split; [exact S3|]. split; reflexivity.
+                ltac:(lia) (Hrows 0 2%nat vs _ Lva Hvs) S2) as (d3 & E3 & S3).
+    rewrite E3. exists d3. split; [reflexivity|exact S3].
 Qed.
